@@ -54,8 +54,8 @@ class LPkt:
         else:
             a = (cm, sm, ep["cip"], ep["sip"], ep["cport"], ep["sport"])
         if self.proto == "tcp":
-            return netio.tcp_frame(*a, self.seq, self.ack, self.flags, self.payload, bad_csum=self.bad_csum, steer=self.steer)
-        return netio.udp_frame(*a, self.payload, bad_csum=self.bad_csum)
+            return netio.tcp_frame(*a, self.seq, self.ack, self.flags, self.payload, bad_csum=self.bad_csum, steer=self.steer, wire=ep.get("wire"))
+        return netio.udp_frame(*a, self.payload, bad_csum=self.bad_csum, wire=ep.get("wire"))
 
 
 # ------------------------------------------------------------------ TLS connection -> logical packets
